@@ -398,6 +398,44 @@ def no_realloc(ctx, taint, wiping_adts):
                         loop_bounds.append(lp.iter_term)
                         mine.append(lp.iter_term)
                     per_push.append(mine)
+                # (1) symbolic count: capacity - sum over fill sites of (items per fill * trip counts of the enclosing loops) >= 0
+                verdict = None
+                try:
+                    from . import ilen
+                    ilen.ENGINE = ctx.eng
+                    capp = ilen.ival(cap)
+                    total = {}
+                    for e, nest in zip(pushes, per_push):
+                        if e['decl'].endswith('::push'):
+                            items = ilen.const(1)
+                        else:
+                            et = ctx.eng.event_term(b, e)
+                            items = ilen.icount(et[3][0])
+                        for itb in nest:
+                            z = itb
+                            while z.tag == 'mut':
+                                z = z[1]
+                            if z.tag == 'zip':
+                                # min of the two sides: either bound will do; take one that can be evaluated
+                                try:
+                                    cnt = ilen.icount(z[1])
+                                except ilen.NoLen:
+                                    cnt = ilen.icount(z[2])
+                            else:
+                                cnt = ilen.icount(itb)
+                            items = ilen.pmul(items, cnt)
+                        total = ilen.padd(total, items)
+                    slack = ilen.padd(capp, total, -1)
+                    verdict = ilen.ge0(slack)
+                    vdet = 'capacity %s, filled with %s' % (capp, total)
+                except Exception as ex:
+                    verdict = None
+                    vdet = 'not evaluated (%s)' % ex
+                if verdict is not None:
+                    rep.check(verdict, 'R-C20-3', key, 'secret vector is created with_capacity(%s), which covers its fills (%s)' % (ccap[:80], vdet[:160]),
+                              'secret vector is created with_capacity(%s) but its fills can exceed it (%s): it reallocates and the outgrown block is freed un-wiped' % (ccap[:80], vdet[:200]),
+                              ctx.where(b, ctor_bb))
+                    continue
                 ok = True
                 for itb in loop_bounds:
                     # a range(0, N) / take(N) / collection whose length is part of the capacity expression
